@@ -263,10 +263,21 @@ func (h *History) CheckC12(res *Result) []Violation {
 			Detail: "force stop returned nil but the pipeline never reached a terminal status"})
 		return out
 	}
-	if !strings.HasPrefix(term.Info, "Degraded") {
+	// A graceful stop that was accepted before the force stop may complete first: the run then
+	// ends as stopped, truthfully. What may never follow an accepted force stop is a run that
+	// goes on (Recovering / Running).
+	gracefulBefore := false
+	for _, c := range res.Ctl {
+		if (c.Kind == "stop" || c.Kind == "stopandwait" || c.Kind == "stopwait" || c.Kind == "stopall" || c.Kind == "stopallwait") &&
+			c.CallIdx < call.CallIdx && (!c.Returned || c.Err == "") {
+			gracefulBefore = true
+		}
+	}
+	stoppedGracefully := strings.HasPrefix(term.Info, "UserStopped") || strings.HasPrefix(term.Info, "SystemStopped")
+	if !strings.HasPrefix(term.Info, "Degraded") && !(gracefulBefore && stoppedGracefully) {
 		out = append(out, Violation{Prop: "C12", Key: "C12/not-degraded-after-force-stop/" + eng, Index: termIdx,
 			Detail: fmt.Sprintf("after a successful force stop the next status is %q, expected Degraded", term.Info)})
-	} else if !strings.Contains(term.Pos, "force stop") {
+	} else if strings.HasPrefix(term.Info, "Degraded") && !strings.Contains(term.Pos, "force stop") {
 		out = append(out, Violation{Prop: "C12", Key: "C12/degraded-without-force-stop-cause/" + eng, Index: termIdx,
 			Detail: fmt.Sprintf("status error does not name the force stop: %q", truncate(term.Pos, 160))})
 	}
@@ -278,13 +289,13 @@ func (h *History) CheckC12(res *Result) []Violation {
 			break
 		}
 	}
-	// a force stop during start-up can reach a plugin's Teardown while its Open is still in
-	// progress, so the open of an instance can be logged after its teardown: that is the forced
-	// run's own instance, not a restart
-	torn := map[string]bool{}
-	for i := 0; i <= termIdx && i < len(h.Events); i++ {
-		if e := h.Events[i]; e.Kind == EvSrcTeardown {
-			torn[fmt.Sprintf("%s/%d", e.Comp, e.Inst)] = true
+	// Plugin calls of the forced run can be logged after the terminal status (a force stop during
+	// start-up reaches Teardown while Open is still in progress; a slow Open answers late): only
+	// the open of an instance that was dispensed AFTER the terminal status is a restart.
+	dispensedAfter := map[string]bool{}
+	for i := termIdx + 1; i < len(h.Events); i++ {
+		if e := h.Events[i]; e.Kind == EvSrcNew {
+			dispensedAfter[fmt.Sprintf("%s/%d", e.Comp, e.Inst)] = true
 		}
 	}
 	for i := termIdx + 1; i < len(h.Events); i++ {
@@ -292,7 +303,7 @@ func (h *History) CheckC12(res *Result) []Violation {
 			break
 		}
 		e := h.Events[i]
-		if e.Kind == EvSrcOpen && torn[fmt.Sprintf("%s/%d", e.Comp, e.Inst)] {
+		if e.Kind == EvSrcOpen && !dispensedAfter[fmt.Sprintf("%s/%d", e.Comp, e.Inst)] {
 			continue
 		}
 		if e.Kind == EvSrcOpen || (e.Kind == EvStatus && (strings.HasPrefix(e.Info, "Running") || strings.HasPrefix(e.Info, "Recovering"))) {
